@@ -582,7 +582,9 @@ pub fn run(out: &mut Out, tier: &str, seed: u64, prop: &str) {
     if prop == "C07" {
         for c in ('a'..='z').chain('A'..='Z').chain('0'..='9') {
             for (text, name, extras) in [(format!("pkg[{c}x]"), "pkg".to_string(), vec![format!("{c}x")]), (format!("pkg[x{c}]"), "pkg".into(), vec![format!("x{c}")]), (format!("pkg [ {c} , x-{c}.y ] >= 1"), "pkg".into(), vec![c.to_string(), format!("x-{c}.y")]),
-                                         (format!("{c}x[a]"), format!("{c}x"), vec!["a".to_string()]), (format!("x{c} ; os_name == 'a'"), format!("x{c}"), vec![]), (format!("{c}"), c.to_string(), vec![]), (format!("x_{c}-y>=1"), format!("x_{c}-y"), vec![])] {
+                                         (format!("{c}x[a]"), format!("{c}x"), vec!["a".to_string()]), (format!("x{c} ; os_name == 'a'"), format!("x{c}"), vec![]), (format!("{c}"), c.to_string(), vec![]), (format!("x_{c}-y>=1"), format!("x_{c}-y"), vec![]),
+                                         // a one-character first segment before a separator (the fast path of the owned constructors tracks the previous character)
+                                         (format!("{c}-x>=1"), format!("{c}-x"), vec![]), (format!("pkg[{c}-y,{c}{c}.z]"), "pkg".into(), vec![format!("{c}-y"), format!("{c}{c}.z")]), (format!("{c}{c}-{c} ; os_name == 'a'"), format!("{c}{c}-{c}"), vec![])] {
                 let ans = req_case(out, &mut w, &mut rc, prop, &text, &vars);
                 let ex: Vec<String> = extras.iter().map(|e| hex(&norm_name(e))).collect();
                 let want = format!("ok name={} extras={} ", hex(&norm_name(&name)), if ex.is_empty() { "-".to_string() } else { ex.join(";") });
@@ -786,6 +788,26 @@ pub fn run(out: &mut Out, tier: &str, seed: u64, prop: &str) {
                 }
             }
         }
+        // very long lines (beyond 2^16 characters) with the mistake at the very end: offsets and echoed text must not be capped
+        {
+            let long_name = "a".repeat(70_000);
+            let long_url = format!("pkg @ https://example.org/{}/pkg-1.0.tar.gz", "d/".repeat(35_000));
+            let long_str = "x".repeat(66_000);
+            for text in [format!("{long_name} ?"), format!("{long_url} ; os_name =="), format!("pkg ; os_name == '{long_str}' und os_name == 'nt'"), format!("pkg[{}", "e,".repeat(33_000)),
+                         format!("pkg >= 1.0 ; {} python_version >= '3'", "os_name == 'a' and ".repeat(4_000)), format!("{}\u{e9} ?", "b".repeat(65_535)), format!("pkg ; os_name == '{long_str}'")] {
+                // (the Lean parser model needs about 20 s per such line: the model is compared on them in the thorough tier only)
+                if big { req_case(out, &mut w, &mut rc, prop, &text, &vars); }
+                else {
+                    out.evaluations += 1;
+                    let ans = w.call(&format!("r {} {}", hex(&text), env_field(&vars)));
+                    let input = serde_json::json!({"text_prefix": text.chars().take(60).collect::<String>(), "text_suffix": text.chars().rev().take(40).collect::<Vec<_>>().into_iter().rev().collect::<String>(), "chars": text.chars().count(), "text_hex": hex(&text)});
+                    if ans.starts_with("panic") || ans == "dead" { out.oracle_fail("C06", "parsing a very long requirement line panicked", input.clone()); }
+                    if ans.contains("disp=0") { out.oracle_fail("C06", "the error returned for a very long line cannot be formatted with Display (panic)", input.clone()); }
+                    if ans.contains("boundary=0") { out.oracle_fail("C06", "the error span of a very long line does not start on a char boundary inside the input", input.clone()); }
+                }
+                out.stat("long_lines.cases");
+            }
+        }
         // trailing input of every width mix after a complete marker (char-counted span)
         {
             let alphabet = ["a", "é", "語", "\u{1F600}"];
@@ -976,19 +998,14 @@ pub fn run(out: &mut Out, tier: &str, seed: u64, prop: &str) {
                 #[cfg(feature = "ext")]
                 if *handpicked { unnamed_oracle(out, &text, sh, suf); }
                 let _ = handpicked;
-                // url helpers: implementation vs Lean model
-                out.evaluations += 1;
-                let sch = match pep508_rs::split_scheme(&text) { Some((a, b)) => format!("{}:{}", hex(a), hex(b)), None => "none".into() };
-                let ext = match pep508_rs::split_extras(&text) { Some((a, b)) => format!("{}:{}", hex(a), hex(b)), None => "none".into() };
-                rc.lines.push(format!("urlhelpers2\t{}", hex(&text)));
-                rc.envs.push(vars.clone());
-                out.impl_out.push(format!("scheme={sch} extras={ext} strip={}", strip_host_hex(&text)));
+                // url helpers: implementation vs Lean model (and vs the harness's own reading)
+                url_helpers_case(out, &mut rc, &text, &vars);
             }
         }
         // the public text helpers on texts that are not requirements: what may start / continue a scheme, where `:` must be,
         // bracket groups that are not at the end, hosts that only resemble `localhost`
         for t in ["1a:b", "+a:b", "-a:b", ".a:b", "a1+-.:b", "a:", ":b", ":", "a", "", "a b:c", "a_b:c", "é:b", "aé:b", "a:b:c", "A:b", " a:b ", "\u{1}a:b\u{1f}", "a\u{a0}:b", "ａ:b",
-                  "x[a]", "x[a]y", "x[a][b]", "x]", "x[", "[a]", "x[a]]", "x[[a]", "x[a] ", "[]", "x[]", "é[ü]", "x[a]\u{a0}",
+                  "a[b[c]", "./releases[2024/pkg-1.0.whl[dev]", "pkg+[old/sub[dev]", "x[[a]", "x[a[b[c]", "[[]", "x[a]", "x[a]y", "x[a][b]", "x]", "x[", "[a]", "x[a]]", "x[[a]", "x[a] ", "[]", "x[]", "é[ü]", "x[a]\u{a0}",
                   "localhost/pkg.whl", "localhost", "localhost/", "/localhost/x", "localhostx/y", "localhost//x", "//localhost", "//localhost/", "//localhostx/y", "//LOCALHOST/p", "/localhost/p", "///p", "//", "/", "//h/p", "//localhost//p", "//localhosté/p"] {
             url_helpers_case(out, &mut rc, t, &vars);
             out.stat("c19.helper_only_texts");
@@ -1221,6 +1238,14 @@ fn url_helpers_case(out: &mut Out, rc: &mut ReqCases, text: &str, vars: &[(Strin
     out.evaluations += 1;
     let sch = match pep508_rs::split_scheme(text) { Some((a, b)) => format!("{}:{}", hex(a), hex(b)), None => "none".into() };
     let ext = match pep508_rs::split_extras(text) { Some((a, b)) => format!("{}:{}", hex(a), hex(b)), None => "none".into() };
+    // pip's `^(.+)(\[[^]]+])$` as the crate documents it: the text ends in `]`, the group starts at the LAST `[` before it, and no other `]` lies in between
+    let spec = (|| { let body = text.strip_suffix(']')?; let j = body.rfind('[')?; if body[j..].contains(']') { return None; } Some(text.split_at(j)) })();
+    if pep508_rs::split_extras(text) != spec {
+        out.oracle_fail("C19", "split_extras does not split at the last `[` before the final `]` (the extras group of a path / URL is cut at the wrong bracket)", serde_json::json!({"text": text, "got": format!("{:?}", pep508_rs::split_extras(text)), "want": format!("{:?}", spec)}));
+    }
+    if strip_host_hex(text) != hex(strip_host_spec(text)) {
+        out.oracle_fail("C19", "strip_host does not drop exactly `//localhost` before a `/`, or else `//`", serde_json::json!({"text": text}));
+    }
     rc.lines.push(format!("urlhelpers2\t{}", hex(text)));
     rc.envs.push(vars.to_vec());
     out.impl_out.push(format!("scheme={sch} extras={ext} strip={}", strip_host_hex(text)));
